@@ -176,26 +176,29 @@ def hExpand (σ : State S) (a : Handle) (rCount cCount : Nat) : R (State S × Ha
   let t ← expandConv (σ.tensorOf a) rCount cCount
   pure (σ.alloc t [a] (some .expand) a.tracked)
 
-def hConv (σ : State S) (image filters : Handle) (sr sc : Nat) : R (State S × Handle) := do
-  let n := image.dims.length
-  let fn := filters.dims.length
+/-- the shape bookkeeping and the refusals of `conv`: `(depth, fr, fc, rCount, cCount)` -/
+def convParams (idims fdims : List Nat) (sr sc : Nat) : R (Nat × Nat × Nat × Nat × Nat) := do
+  let n := idims.length
+  let fn := fdims.length
   if n = 0 then throw .underflow
   if !(n ≥ 3 && fn ≥ 3) then throw .rank
-  let depth ← dimFromEnd image.dims 3
-  let rows ← dimFromEnd image.dims 2
-  let cols ← dimFromEnd image.dims 1
-  let fr ← dimFromEnd filters.dims 2
-  let fc ← dimFromEnd filters.dims 1
+  let depth ← dimFromEnd idims 3
+  let rows ← dimFromEnd idims 2
+  let cols ← dimFromEnd idims 1
+  let fr ← dimFromEnd fdims 2
+  let fc ← dimFromEnd fdims 1
   if rows < fr || cols < fc then throw .underflow
   if sr = 0 || sc = 0 then throw .underflow
-  let rCount := (rows - fr) / sr + 1
-  let cCount := (cols - fc) / sc + 1
-  let (σ1, unrolled) ← hUnroll σ image sr sc fr fc
+  pure (depth, fr, fc, (rows - fr) / sr + 1, (cols - fc) / sc + 1)
+
+def hConv (σ : State S) (image filters : Handle) (sr sc : Nat) : R (State S × Handle) := do
+  let prm ← convParams image.dims filters.dims sr sc
+  let (σ1, unrolled) ← hUnroll σ image sr sc prm.2.1 prm.2.2.1
   let last ← dimFromEnd unrolled.dims 1
-  let size := last / depth
-  let (σ2, fm) ← hReshape σ1 filters (filters.dims.take (fn - 3) ++ [size * depth])
+  let size := last / prm.1
+  let (σ2, fm) ← hReshape σ1 filters (filters.dims.take (filters.dims.length - 3) ++ [size * prm.1])
   let (σ3, convolved) ← hMatmul σ2 unrolled false fm true none
-  hExpand σ3 convolved rCount cCount
+  hExpand σ3 convolved prm.2.2.2.1 prm.2.2.2.2
 
 def hMse (σ : State S) (output target : Handle) : R (State S × Handle) := do
   let (σ1, d) ← hSub σ target output
@@ -209,18 +212,23 @@ def hXent (σ : State S) (output target : Handle) : R (State S × Handle) := do
   let (σ3, p) ← hMul σ2 nt lo
   hScale σ3 p (ScalarOps.div one (ScalarOps.ofNat b))
 
+/-- forward values of the harness-defined `Array::op` nodes -/
+def customVals (kind : Nat) (ts : List (Tensor S)) : R (List S) := do
+  let first ← getR ts 0
+  match kind with
+  | 0 => pure (ts.foldl (fun acc t => List.zipWith (· + ·) acc t.vals) (first.vals.map (fun _ => zero)))
+  | 1 => do let b ← getR ts 1; pure (mulValues first.vals b.vals)
+  | 2 => pure (first.vals.map (· * (one + one)))
+  | 3 => do
+    let b ← getR ts 1; let c ← getR ts 2
+    pure (List.zipWith (· + ·) (mulValues first.vals b.vals) c.vals)
+  | _ => throw .modelGap
+
 /-- harness-defined `Array::op` nodes (always given a backward closure, so always attached) -/
 def hCustom (σ : State S) (kind : Nat) (label : String) (args : List Handle) : R (State S × Handle) := do
   let ts := args.map σ.tensorOf
   let first ← getR ts 0
-  let vals ← match kind with
-    | 0 => pure (ts.foldl (fun acc t => List.zipWith (· + ·) acc t.vals) (first.vals.map (fun _ => zero)))
-    | 1 => do let b ← getR ts 1; pure (mulValues first.vals b.vals)
-    | 2 => pure (first.vals.map (· * (one + one)))
-    | 3 => do
-      let b ← getR ts 1; let c ← getR ts 2
-      pure (List.zipWith (· + ·) (mulValues first.vals b.vals) c.vals)
-    | _ => throw .modelGap
+  let vals ← customVals kind ts
   let t ← Tensor.mk? first.dims vals
   pure (σ.alloc t args (some (.custom kind)) true label)
 
